@@ -665,6 +665,21 @@ func (e *kvElection) becomeFollower() bool {
 	return e.becomeFollowerLocked()
 }
 
+// becomeFollowerOfTerm is becomeFollower for the loops that serve one term
+// (heartbeat, health check, periodic validation): it ends the leadership only
+// if the term whose context is given is still the current one. A loop that was
+// held up while its term ended must not demote the term the instance may be
+// leading by now. The term context is cancelled under mu, so the check and
+// the demotion are one step.
+func (e *kvElection) becomeFollowerOfTerm(termCtx context.Context) bool {
+	e.mu.Lock()
+	defer e.mu.Unlock()
+	if termCtx.Err() != nil {
+		return false
+	}
+	return e.becomeFollowerLocked()
+}
+
 // becomeFollowerUnlessLeader is used by acquisition attempts that failed: it
 // puts a candidate into FOLLOWER (starting the watcher) but leaves an instance
 // that leads alone.
